@@ -74,8 +74,10 @@ PROPS = {
                 quick=[R(checks=20000)],
                 thorough=[R(checks=80000, shards=16, timeout=2400)]),
     "C13": dict(pkg="c13", level="exploration",
-                quick=[R(checks=600, shards=2), R(checks=100, shards=4, env={"VERIF_C13_DEV": "1"})],
-                thorough=[R(checks=4000, shards=16, timeout=1800)]),
+                quick=[R(checks=600, shards=2), R(checks=100, shards=4, env={"VERIF_C13_DEV": "1"}),
+                       R(checks=250, shards=2, env={"VERIF_C13_LOOP": "gnmi"}), R(checks=60, shards=2, env={"VERIF_C13_LOOP": "nc"})],
+                thorough=[R(checks=4000, shards=16, timeout=1800), R(checks=3000, shards=8, timeout=1500, env={"VERIF_C13_LOOP": "gnmi"}),
+                          R(checks=600, shards=8, timeout=1500, env={"VERIF_C13_LOOP": "nc"})]),
     "C14": dict(pkg="c14", level="exploration",
                 quick=[R(checks=4000)],
                 thorough=[R(checks=20000, shards=16, timeout=1800)]),
